@@ -104,7 +104,7 @@ func (r *Run) BeginBlockAfter(d time.Duration) Outcome {
 	hdr := r.W.BaseHeader
 	hdr.Height = r.Height
 	hdr.Time = r.Time
-	hdr.ProposerAddress = r.W.Vals[r.Proposer].Pub.Address().Bytes()
+	hdr.ProposerAddress = r.W.Vals[r.Proposer].ConsAddress()
 	em := sdk.NewEventManager()
 	r.Ctx = r.Ctx.WithBlockHeader(hdr).WithHeaderHash(BlockHash(r.Height)).
 		WithVoteInfos(r.Votes).WithEventManager(em).WithBlockHeight(r.Height)
